@@ -21,13 +21,14 @@ from sa.loader import AnalysisError, call_name, calls_in, kwarg, walk_local
 
 PROPERTY = "C18"
 EXPLANATION = (
-    "R1: who-reaches-update rule at the five parameter routes (every Profile(...)/Profile.load(...) call in "
-    "genotype() forwards **params; Profile.__init__ assigns every default before self.update(kwargs); the dump "
-    "route re-applies params; the command line forwards --param pairs). R2: Profile.update is lifted and "
-    "folded over the documented spelling table for boolean, float, int and string parameters (true/false in "
-    "any case, 1/0, native values, malformed strings, unknown names, None). R3: merge order in Profile.load. "
-    "R4: both --param loops of __main__ folded on sample inputs must agree. R5: profile command stores the "
-    "update's typed results under 'options', and update is idempotent on them."
+    "The Profile class is lifted whole (constructor, update, load, get_sam_profile_data, module helpers; file system and "
+    "YAML replaced by an in-memory table; class-level and module-level tables are state of the run): every parameter with a "
+    "default x every documented spelling of its type through update and through the constructor, documented default = "
+    "folded default; options section through load (every spelling, explicit beats file, unknown ignored, same file loaded "
+    "twice); profile command -> document -> load round trip after a history of unrelated updates. genotype() folded whole "
+    "on the routes (input kind x structure given): the profile handed to the loader and the one the stages see carry the "
+    "typed values, the dump route re-applies them. main() folded whole on an argparse model (--param pairs of both "
+    "sub-commands, repeated flags; a model of PyYAML's scalar resolver stands in for yaml.safe_load)."
 )
 ASSUMPTIONS = ["yaml.dump / yaml.safe_load round-trip native bool/int/float/str values (external library)"]
 
